@@ -350,6 +350,16 @@ def enumerate_cases(tier):
     for argv in [["name from", "r\udcff"], ["\udcff"], ["name", "from", ".", "where", "name", "=", "\udcff"], ["name from . where name = '\udcc3('"],
                  ["-c", "\udcff.toml", "name from ."], ["name", "\udcfe"]]:
         cases.append({"cls": "i", "argv": argv, "expect2": False})
+    # a bracket opened right after a function word and never closed; a `not` with nothing to negate
+    for f in ["lower", "length", "concat", "abs", "year", "min"]:
+        for t in ["%s( from .", "name, %s(", "name, %s(( from .", "name, %s{ from .", "name from . where size > %s(",
+                  "name from . where size > 1 and %s(", "name from . order by %s(( desc", "name from . group by %s(",
+                  "name, %s( limit x", "name, %s( into json", "name, %s(name =!= x from ."]:
+            cases.append({"cls": "v:unbalanced", "argv": [t % f], "expect2": True})
+    for t in ["name from . where is_file not", "name from . where size > 1 and is_file not", "name from . where (is_file not) or is_dir",
+              "name from . where name not", "name from . where is_file not order by name", "name from . where size not"]:
+        cases.append({"cls": "v:dangling-op", "argv": [t], "expect2": True})
+        cases.append({"cls": "v:dangling-op", "argv": t.split(), "expect2": True})
     for toks in [["from", "."], ["from", ".", "where", "size", ">", "1"], ["where", "size", ">", "1"], ["into", "json"],
                  ["order", "by", "name"], ["limit", "5"], ["select"], ["select", "from", "."], [","],
                  ["select", ",", "from", "sub"], ["from", ".", "into", "list"], ["and"], [")"], ["select", "into", "csv"]]:
